@@ -18,6 +18,7 @@ CONSTANTS Zero, One, Add(_, _), Sub(_, _), Mul(_, _), Div(_, _), Neg(_), Abs(_),
           Ln(_),        \* natural logarithm
           R5(_)         \* R(x) = sum_{m>=0} x^m/(m+5)!
 
+Fma(fa, fb, fc) == Add(Mul(fa, fb), fc)      \* exact arithmetic: fused = unfused
 A == INSTANCE PolyAlgebra
 
 LogVal(p, v) == A!Eval(p, Ln(v))
